@@ -104,10 +104,40 @@ def check_deep(dd, acc, workdir):
             acc.case(case, nontrivial=True, classes=['deep-nesting'])
 
 
+def check_long(dd, acc, workdir, shard_no, rounds):
+    """Long top-level expressions (several KiB each), many different ones rendered one
+    after the other in one process: a rendering must depend on its argument only, not
+    on what was rendered (and freed) before."""
+    import gc
+    for i in range(rounds):
+        n = 500 + 37 * ((i + shard_no) % 9)
+        alist = [f'(p{(i * 7919 + j * 31 + shard_no) % 100003} x{j})' for j in range(n)]
+        atoms = ' '.join(alist)
+        text = f'(set-logic ALL)\n(assert (and {atoms}))\n(assert (or {" ".join(alist[:200])}))\n(check-sat)\n'
+        case = dict(kind='long', text=f'<{n} atoms, round {i}>')
+        exprs = list(dd.nodeio.parse_smtlib(text))
+        flat = refreader.tokens(text)
+        for r in RENDERERS:
+            try:
+                out = render(dd, r, exprs, workdir)
+            except Exception as e:  # noqa
+                acc.violation(f'{r}/raises/{type(e).__name__}', f'renderer {r} on a long expression: {e!r}', case)
+                continue
+            if refreader.tokens(out) != flat:
+                acc.violation(f'{r}/tokens-differ/long-expression',
+                              f'round {i}: rendering of a {len(text)} character input does not have its tokens '
+                              f'(stale state from an earlier rendering?)', case)
+        del exprs
+        gc.collect()
+        acc.case(case, nontrivial=True, classes=['long-expressions-in-sequence'])
+
+
 def shard(ctx, acc):
     dd = env.load()
     if ctx.shard == 0:
         check_deep(dd, acc, ctx.workdir)
+    if ctx.shard in (1, 2, 3, 4):
+        check_long(dd, acc, ctx.workdir, ctx.shard, 25 if ctx.quick else 400)
     total = 5000 if ctx.quick else 400000
     strat = gen_lex.top(max_items=5, max_leaves=30)
 
@@ -133,6 +163,9 @@ def replay(case, acc, ctx):
     dd = env.load()
     if case.get('kind') == 'deep':
         check_deep(dd, acc, ctx.workdir)
+        return
+    if case.get('kind') == 'long':
+        check_long(dd, acc, ctx.workdir, 1, 60)
         return
     exprs = list(dd.nodeio.parse_smtlib(case['text']))
     check_exprs(dd, exprs, acc, case, ctx.workdir)
